@@ -92,12 +92,23 @@ class Servers:
         self.port = self.srv.server_address[1]
         self.thread = threading.Thread(target=self.srv.serve_forever, kwargs={"poll_interval": 0.05}, daemon=True)
         self.thread.start()
+        # the same backend behind dulwich.web (smart HTTP, stateless-rpc): for HttpGitClient
+        from wsgiref.simple_server import make_server
+        from dulwich.web import WSGIRequestHandlerLogger, WSGIServerLogger, make_wsgi_chain
+        self.web = make_server("127.0.0.1", 0, make_wsgi_chain(self.backend), handler_class=WSGIRequestHandlerLogger,
+                               server_class=WSGIServerLogger)
+        self.webport = self.web.server_address[1]
+        self.webthread = threading.Thread(target=self.web.serve_forever, kwargs={"poll_interval": 0.05}, daemon=True)
+        self.webthread.start()
         self.n = 0
 
     def close(self):
         self.srv.shutdown()
         self.srv.server_close()
         self.thread.join(5)
+        self.web.shutdown()
+        self.web.server_close()
+        self.webthread.join(5)
         shutil.rmtree(self.base, ignore_errors=True)
 
     # ---------------------------------------------------------------- git push and its report
@@ -121,10 +132,11 @@ class Servers:
         return out, unp, p.returncode, (p.stdout.decode(errors="replace") + err)[-600:]
 
     # ---------------------------------------------------------------- (b) dulwich TCP server
-    def push_dulwich_client(self, desc):
-        """dulwich's own TCP client against the same server: TraditionalGitClient.send_pack,
-        _handle_receive_pack_tail and ReportStatusParser end to end."""
-        from dulwich.client import TCPGitClient
+    def push_dulwich_client(self, desc, stack="dulwich", path=None):
+        """dulwich's own client stacks end to end (send_pack, _handle_receive_pack_tail,
+        ReportStatusParser): stack = "dulwich" TCPGitClient -> dulwich TCPGitServer, "http" HttpGitClient
+        -> dulwich.web, "subprocess" SubprocessGitClient -> `git receive-pack` on the repository at path."""
+        from dulwich.client import HttpGitClient, SubprocessGitClient, TCPGitClient
         from dulwich.errors import GitProtocolError, SendPackError
         from dulwich.pack import pack_objects_to_data
         fx = L.fixture()
@@ -137,7 +149,13 @@ class Servers:
             return pack_objects_to_data([(o, None) for i in sorted(desc["pack"]) for o in fx.objs[i]])
         n = len(desc["cmds"])
         try:
-            res = TCPGitClient("127.0.0.1", port=self.port).send_pack(b"/x", update_refs, gen, atomic="atomic" in desc["caps"])
+            atomic = "atomic" in desc["caps"]
+            if stack == "http":
+                res = HttpGitClient(f"http://127.0.0.1:{self.webport}").send_pack("/x", update_refs, gen, atomic=atomic)
+            elif stack == "subprocess":
+                res = SubprocessGitClient().send_pack(path, update_refs, gen, atomic=atomic)
+            else:
+                res = TCPGitClient("127.0.0.1", port=self.port).send_pack(b"/x", update_refs, gen, atomic=atomic)
         except SendPackError as e:
             return ["-"] * n, "fail", 1, str(e)[:200]
         except GitProtocolError as e:
@@ -171,7 +189,7 @@ class Servers:
             if client == "git":
                 st, unp, rc, text = self.push(f"git://127.0.0.1:{self.port}/x", descs[0])
             else:
-                st, unp, rc, text = self.push_dulwich_client(descs[0])
+                st, unp, rc, text = self.push_dulwich_client(descs[0], client)
             rec.log({"p": 1, "op": "done", "unp": unp, "st": st, "err": "" if rc == 0 else f"rc={rc}", "rest": 0,
                      "refs": rec.refs_now(), "store": rec.store_now()})
         finally:
@@ -184,6 +202,57 @@ class Servers:
 
     # ---------------------------------------------------------------- (a) C git's own receive-pack
     def run_cgit(self, case):
+        root = self.make_cgit(case)
+        fx = L.fixture()
+        st, unp, rc, text = self.push(root, case["push"][0])
+        refs = [fx.v(L.read_ref_file(root, L.REFNAMES[i])) for i in range(len(case["refs0"]))]
+        store = L.Rec(root, len(case["refs0"])).store_now()
+        shutil.rmtree(root, ignore_errors=True)
+        return st, unp, refs, store, text
+
+    def run_subprocess(self, case):
+        """dulwich's SubprocessGitClient pushing to C git's receive-pack.  The server is not
+        instrumented; the events are inferred from what can be read: the racing pusher is a pre-receive
+        hook, so every ref holds (initial value, changed by the racer's command) when receive-pack turns
+        to the commands, the refs are distinct, and the value after is the one read back at the end."""
+        fx = L.fixture()
+        descs = case["push"]
+        root = self.make_cgit(case)
+        st, unp, rc, text = self.push_dulwich_client(descs[0], "subprocess", root)
+        n = len(case["refs0"])
+        final = [fx.v(L.read_ref_file(root, L.REFNAMES[i])) for i in range(n)]
+        store = L.Rec(root, n).store_now()
+        shutil.rmtree(root, ignore_errors=True)
+        cur = list(case["refs0"])
+        ev, seq = [], 0
+
+        def log(e):
+            nonlocal seq
+            seq += 1
+            e["seq"] = seq
+            ev.append(e)
+        if len(descs) > 1:
+            c = descs[1]["cmds"][0]
+            pre = cur[c["r"] - 1]
+            if pre == c["old"]:
+                cur[c["r"] - 1] = c["new"]
+            log({"p": 2, "op": "refop", "i": 1, "kind": "inferred", "ref": os.fsdecode(L.REFNAMES[c["r"] - 1]), "cold": c["old"], "cnew": c["new"],
+                 "pre": pre, "post": cur[c["r"] - 1], "res": int(pre == c["old"]), "exc": "", "refs": list(cur)})
+            log({"p": 2, "op": "done", "unp": "ok", "st": ["ok" if pre == c["old"] else "ng"], "err": "", "rest": 0, "refs": list(cur),
+                 "store": sorted(case["store0"])})
+        if store != sorted(case["store0"]):
+            log({"p": 1, "op": "unpack", "ok": True, "exc": "", "store": store})
+        for i, c in enumerate(descs[0]["cmds"], 1):
+            pre, post = cur[c["r"] - 1], final[c["r"] - 1]
+            if pre != post:
+                cur[c["r"] - 1] = post
+                log({"p": 1, "op": "refop", "i": i, "kind": "inferred", "ref": os.fsdecode(L.REFNAMES[c["r"] - 1]), "cold": c["old"], "cnew": c["new"],
+                     "pre": pre, "post": post, "res": 1, "exc": "", "refs": list(cur)})
+        log({"p": 1, "op": "done", "unp": unp, "st": st, "err": "" if rc == 0 else f"rc={rc}", "rest": 0, "refs": final, "store": store})
+        return {"refs0": list(case["refs0"]), "store0": sorted(case["store0"]), "push": descs, "ev": ev, "via": "subprocess",
+                "inferred": True, "layout": "loose", "git_output": text}
+
+    def make_cgit(self, case):
         fx = L.fixture()
         self.n += 1
         root = os.path.join(self.base, f"cg{self.n}.git")
@@ -215,11 +284,7 @@ class Servers:
             with open(os.path.join(hooks, "pre-receive"), "w") as f:
                 f.write(f"#!/bin/sh\ncat >/dev/null\nunset GIT_QUARANTINE_PATH GIT_OBJECT_DIRECTORY GIT_ALTERNATE_OBJECT_DIRECTORIES\n{cmd} || exit 1\nexit 0\n")
             os.chmod(os.path.join(hooks, "pre-receive"), 0o755)
-        st, unp, rc, text = self.push(root, descs[0])
-        refs = [fx.v(L.read_ref_file(root, L.REFNAMES[i])) for i in range(len(case["refs0"]))]
-        store = L.Rec(root, len(case["refs0"])).store_now()
-        shutil.rmtree(root, ignore_errors=True)
-        return st, unp, refs, store, text
+        return root
 
 
 def p2_first(beh):
@@ -272,28 +337,34 @@ def run(ctx, judge, tpl, behs_ref, behs_code):
             if got not in ref.get(k, set()):
                 raise MachineryError(f"specification disagrees with C git (spec defect, not a verdict on dulwich): case={k} "
                                      f"git={got} spec={sorted(ref.get(k, set()))} output={text!r}")
-            # (b) dulwich behind the same client, and behind dulwich's own TCP client
-            for client in ("git", "dulwich"):
-                tr = S.run_dulwich(case, client)
+            # (b) real client stacks: C git and dulwich's TCP client -> dulwich TCP server, dulwich's HTTP client ->
+            # dulwich.web, dulwich's subprocess client -> C git's receive-pack
+            for client in ("git", "dulwich", "http", "subprocess"):
+                tr = S.run_subprocess(case) if client == "subprocess" else S.run_dulwich(case, client)
                 nd += 1
-                label = client + "-tcp"
+                label = {"git": "git-tcp", "dulwich": "dulwich-tcp", "http": "dulwich-http", "subprocess": "subprocess-cgit"}[client]
                 tr["label"] = label
-                judge.add(label, tr)
+                tid = judge.add(label, tr)
                 ctx.count()
                 done = [e for e in tr["ev"] if e["op"] == "done" and e["p"] == 1][-1]
                 ops = tuple((e["p"], e["i"], e["pre"], e["post"]) for e in tr["ev"] if e["op"] == "refop")
-                got = ((done["unp"], tuple(done["st"]), tuple(done["refs"])), ops)
-                ctx.nontrivial((label, k, got))
-                if got not in code.get(k, set()):
-                    ctx.drift_event(f"{label}: dulwich behind this client behaves in a way RecvPack does not allow: case={k} real={got} "
-                                    f"spec={sorted(code.get(k, set()), key=repr)[:3]} client said {tr['git_output']!r}")
+                outcome = (done["unp"], tuple(done["st"]), tuple(done["refs"]))
+                ctx.nontrivial((label, k, outcome, ops))
+                if client == "subprocess":
+                    # the server is C git: the outcome must be one the repaired specification allows
+                    if outcome not in ref.get(k, set()):
+                        judge.pending.append((tid, f"{label}: dulwich's client against C git's receive-pack: outcome outside the repaired "
+                                                   f"specification: case={k} real={outcome} spec={sorted(ref.get(k, set()))} client said {tr['git_output']!r}"))
+                elif (outcome, ops) not in code.get(k, set()):
+                    judge.pending.append((tid, f"{label}: dulwich behind this client behaves in a way RecvPack does not allow: case={k} "
+                                               f"real={(outcome, ops)} spec={sorted(code.get(k, set()), key=repr)[:3]} client said {tr['git_output']!r}"))
         if S.errors:
             ctx.drift_event(f"git-tcp: the TCP server's handler raised: {S.errors[:3]}")
     finally:
         S.close()
     ctx.sample({"kind": "git-tcp", "case": json.loads(keys[len(keys) // 2]), "events": tr["ev"][-3:]}, limit=8)
-    ctx.log(f"C git: {ngit} pushes to git's own receive-pack agree with the repaired specification; {nd} pushes (C git and dulwich's "
-            f"TCP client) to a dulwich TCP server recorded")
+    ctx.log(f"C git: {ngit} pushes to git's own receive-pack agree with the repaired specification; {nd} pushes through real client "
+            f"stacks (C git / TCPGitClient -> dulwich TCP server, HttpGitClient -> dulwich.web, SubprocessGitClient -> C git) recorded")
 
 
 def L_case_key(beh):
@@ -305,7 +376,9 @@ def L_case_key(beh):
 def rerun(ctx, tpl, tr0):
     S = Servers(ctx, tpl)
     try:
-        return S.run_dulwich({"refs0": tr0["refs0"], "store0": tr0["store0"], "push": tr0["push"], "layout": tr0.get("layout", "loose")},
-                             tr0.get("via", "git"))
+        case = {"refs0": tr0["refs0"], "store0": tr0["store0"], "push": tr0["push"], "layout": tr0.get("layout", "loose")}
+        if tr0.get("via") == "subprocess":
+            return S.run_subprocess(case)
+        return S.run_dulwich(case, tr0.get("via", "git"))
     finally:
         S.close()
